@@ -233,7 +233,7 @@ def gen_derived(rng, n):
             ring = "C"
         nmax = {"tensor": 3, "sym2": 4, "gln_adjoint": 3, "sln_adjoint": 3}.get(kind, 5)
         dim = rng.randint(2 if kind == "sln_adjoint" else 1, nmax)
-        simple = rng.random() < 0.7
+        simple = rng.random() < (0.5 if kind.startswith("subgroup") else 0.7)     # option x multi-character names
         spec = H.rand_spec(rng, ring=ring, simple=simple, n=dim, names=H.rand_names(rng, simple, rng.randint(1, 3)))
         alph = H.spec_names(spec)
         spec["relations"] = [H.join_word(H.rand_letters(rng, alph, rng.randint(1, 4)), simple) for _ in range(rng.randint(0, 2))]
@@ -247,7 +247,7 @@ def gen_derived(rng, n):
                 q["Ci"] = H.enc(H.finv(C))
         if kind.startswith("subgroup"):
             k = rng.randint(1, 3)
-            subw = [H.rand_letters(rng, alph, rng.randint(1, 4)) for _ in range(k)]
+            subw = [H.rand_letters(rng, alph, rng.randint(2, 4) if rng.random() < 0.7 else 1, reduced=True) for _ in range(k)]
             names = list("abc"[:k]) if kind == "subgroup_list" else rng.sample(["x", "y", "Z", "w"], k)
             q.update(kind="subgroup", pairs=[[nm, H.join_word(w, simple)] for nm, w in zip(names, subw)],
                      inv=kind != "subgroup_noinv")
@@ -258,6 +258,7 @@ def gen_derived(rng, n):
             p = rng.randint(1, 3)
             other = H.rand_spec(rng, ring=ring, simple=simple, n=p, names=[h["g"] for h in spec["hist"]], reassign=False)
             other["hist"] = [{"g": h["g"], "inv": h["inv"], "m": H.enc(H.gen_matrix(rng, p, ring))} for h in spec["hist"]]
+            rng.shuffle(other["hist"])        # operands whose generators were assigned in different orders
             inp["other"] = other
             q["other"] = H.lean_spec(other)
         if kind.startswith("subgroup"):
@@ -314,7 +315,8 @@ def run_derived(inp):
            "rels": [list(d.parse_word(r)) for r in d.relations]}
     for w in inp["words"]:
         out["vals"].append(H.guard(lambda: H.asl(d[w["s"]], inp["spec"]["ring"])))
-        out["bounds"].append(H.norm_bound(d, w["l"]))
+        # derived generators are built from inverses (and inverses of inverses): error scale = conditioning of the word
+        out["bounds"].append(H.norm_bound(d, w["l"]) * H.norm_bound(d, [H.swapcase(x) for x in w["l"]]))
     return out
 
 
@@ -508,7 +510,7 @@ def gen_dor(rng, n):
         kind = OKINDS[i % len(OKINDS)]
         nmax = {"tensor": 3, "sym2": 4, "gln_adjoint": 3, "sln_adjoint": 3}.get(kind, 5)
         dim = rng.randint(2 if kind in ("sln_adjoint", "hyperbolic") else 1, nmax)
-        simple = kind == "hyperbolic" or rng.random() < 0.7
+        simple = kind == "hyperbolic" or rng.random() < (0.5 if kind == "subgroup" else 0.7)
         ring = "Z" if kind == "astype" or (kind not in ("sym2", "hyperbolic") and rng.random() < 0.3) else "Q"
         if kind not in ("astype", "projective", "hyperbolic") and rng.random() < 0.3:
             ring = "C"          # complex generators, mixed with real ones in every assignment order (rand_spec)
@@ -521,9 +523,9 @@ def gen_dor(rng, n):
         if kind not in ("hyperbolic",) and rng.random() < 0.5:
             spec["relations"] = [H.join_word(H.rand_letters(rng, alph, rng.randint(1, 4)), simple) for _ in range(rng.randint(1, 2))]
         yield {"kind": kind, "spec": spec, "w": H.rand_letters(rng, alph, min(rng.choice([0, 1, 2, 4, 7]), 4 if H.has_int(spec) else 7)),
-               "C": H.enc(H.gen_matrix(rng, dim, "Q")), "sub": [H.rand_letters(rng, alph, rng.randint(1, 3)) for _ in range(2)],
+               "C": H.enc(H.gen_matrix(rng, dim, "Q")), "sub": [H.rand_letters(rng, alph, rng.randint(2, 3) if rng.random() < 0.7 else 1, reduced=True) for _ in range(2)],
                "other": [H.enc(H.gen_matrix(rng, 2, "Q")) for _ in spec["hist"]], "sub_inv": rng.random() < 0.5,
-               "ci": rng.random() < 0.5, "assign_wrapped": rng.random() < 0.6}
+               "ci": rng.random() < 0.5, "assign_wrapped": rng.random() < 0.6, "coin_order": rng.random() < 0.7}
 
 
 def _sym2_ref(A):
@@ -567,7 +569,10 @@ def run_dor(inp):
         got, want = ev(rep.compose(lambda M: np.kron(M, M), compute_inverses=inp.get("ci", False))), np.kron(A, A)
     elif kind == "tensor":
         oth = R.Representation(parse_simple=simple)
-        for h, m in zip(spec["hist"], inp["other"]):
+        pairs = list(zip(spec["hist"], inp["other"]))
+        if inp.get("coin_order", True):
+            pairs = pairs[::-1]       # the second operand's generators are assigned in another order
+        for h, m in pairs:
             oth[h["g"]] = H.tonp(m)
         got, want = ev(rep.tensor_product(oth), False), np.kron(A, np.asarray(oth[w], dtype=float))
     elif kind == "sym2":
@@ -765,8 +770,14 @@ def gen_iso(rng, n):
                 steps.append(["diff", who, H.rand_letters(rng, cur, rng.choice([1, 2, 3]))])
             elif r < 0.55:
                 steps.append(["cob", who])
-            elif r < 0.75:
+            elif r < 0.68:
                 steps.append(["derived", who, rng.choice(ISO_DERIVED)])
+            elif r < 0.8:
+                # a copy (plain or wrapped class), then an assignment on the copy or on the original
+                g = rng.choice(names + extra)
+                sp = A if who == "A" else B
+                steps.append(["copy_assign", who, rng.choice(["plain", "projective"]), rng.random() < 0.5,
+                              {"g": g, "m": H.enc(H.gen_matrix(rng, dim, "Q" if sp["ring"] == "C" else sp["ring"])), "inv": True}])
             else:
                 g = rng.choice(names + extra)          # a new generator, or a re-assignment
                 g = H.swapcase(g) if rng.random() < 0.25 else g
@@ -857,6 +868,25 @@ def run_iso(inp):
             d = _iso_derive(rep, st[2], spec)
             for arr in list(d.generators.values()):
                 _bump(arr)                     # the derived representation owns its matrices
+        elif op == "copy_assign":
+            from geometry_tools import projective
+            cls = R.Representation if st[2] == "plain" else projective.ProjectiveRepresentation
+            cp = cls(rep)
+            h = st[4]
+            M = H.tonp_h(h, "Q" if spec["ring"] == "C" else spec["ring"]).astype(float)
+            target_copy = st[3]
+            (cp if target_copy else rep).set_generator(h["g"], M, compute_inverse=True) if st[2] == "plain" or not target_copy \
+                else cp.__setitem__(h["g"], projective.Transformation(M, column_vectors=True))
+            old_spec = dict(spec, hist=list(spec["hist"]))
+            new_spec = dict(spec, hist=spec["hist"] + [dict(h, dt="float64")])
+            if not target_copy:
+                spec["hist"] = new_spec["hist"]
+            want_cp = H.build_rep(new_spec if target_copy else old_spec)
+            for gname in want_cp.generators:
+                w = H.join_word([gname], simple)
+                got = cp[w] if st[2] == "plain" else np.asarray(cp[w].matrix).T
+                if list(cp.generators) != list(want_cp.generators) or not H.mclose(got, want_cp[w], H.norm_bound(want_cp, [gname]) * 10):
+                    return {"bad": tag, "who": who, "what": "copy and original are not independent after an assignment", "word": w}
         elif op == "assign":
             h = st[3]
             M = H.tonp_h(h, spec["ring"])
